@@ -206,6 +206,17 @@ def new_moltype_tables(mt, label):
     return dict(alpha=alpha, dga=dga, ambig=ambig, comp=comp)
 
 
+def old_protein_tables(mt, label):
+    """the protein moltype old Sequence.get_translation encodes a set of amino acids with
+    (MolType._what_ambiguity iterates `ambiguities` in dict order)"""
+    need(mt.label == label, f"old moltype label {mt.label!r}")
+    need(mt.gap == "-" and mt.missing == "?", f"old {label}: gap/missing symbols {mt.gap!r} {mt.missing!r}")
+    alpha = tuple(mt.alphabet)
+    need(all(isinstance(c, str) and len(c) == 1 for c in alpha), f"old {label} alphabet {alpha!r}")
+    ambig = [(k, tuple(v)) for k, v in mt.ambiguities.items()]
+    return dict(alpha=alpha, ambig=ambig)
+
+
 # ------------------------------------------------------------------ output
 
 def generate() -> str:
@@ -218,6 +229,7 @@ def generate() -> str:
     o_dna, o_rna = old_moltype_tables(om.DNA, "dna"), old_moltype_tables(om.RNA, "rna")
     n_dna, n_rna = new_moltype_tables(nm.DNA, "dna"), new_moltype_tables(nm.RNA, "rna")
     need(tuple(monomers[:4]) == n_dna["alpha"], "codon alphabet monomers differ from new DNA alphabet")
+    o_prot, o_prot_stop = old_protein_tables(om.PROTEIN, "protein"), old_protein_tables(om.PROTEIN_WITH_STOP, "protein_with_stop")
 
     out = ["(* GENERATED on every run by harness/translators/gc_tables.py from the table objects of the",
            "   current cogent3 source (genetic codes, IUPAC ambiguity / complement tables) and from the",
@@ -244,6 +256,9 @@ def generate() -> str:
         out.append(f"(* new_moltype.{lab.upper()}.degen_gapped_alphabet *)\nDefinition {lab}_dga_new : list Z := {zs(n['dga'])}.")
         out.append(assoc_sets(f"{lab}_ambig_new", n["ambig"], f"new_moltype.{lab.upper()}.ambiguities in dict order (members sorted)"))
         out.append(assoc_pairs(f"{lab}_comp_new", n["comp"], f"bytes table new_moltype.{lab.upper()}._complement translates with, on degen_gapped_alphabet (identity elsewhere)"))
+    for lab, o in (("prot", o_prot), ("prot_stop", o_prot_stop)):
+        out.append(f"Definition {lab}_alpha_old : list Z := {zs(o['alpha'])}.")
+        out.append(assoc_sets(f"{lab}_ambig_old", o["ambig"], f"moltype.{lab.upper()} (old) .ambiguities in dict order"))
     out.append("(* short names (also used by the sequence-view property) *)")
     out.append("Definition comp_dna : list (Z * Z) := dna_comp_new.")
     out.append("Definition comp_rna : list (Z * Z) := rna_comp_new.")
